@@ -1,0 +1,9 @@
+// Copyright JAMF Software, LLC
+
+//go:build !verif
+
+package kv
+
+import dbsm "github.com/lni/dragonboat/v4/statemachine"
+
+func verifUpdate(uint64, uint64, []dbsm.Entry) {}
